@@ -79,11 +79,16 @@ def parse_gro_image(text):
     title = lines[0]
     n = int(lines[1])
     recs = []
+    width = len(lines[2]) if n else 44
+    if width not in (44, 68):
+        raise ValueError("atom line of %d characters: %r" % (width, lines[2]))
     for l in lines[2:2 + n]:
-        if len(l) != 44:
-            raise ValueError("atom line of %d characters: %r" % (len(l), l))
+        if len(l) != width:
+            raise ValueError("atom lines of %d and %d characters in one file: %r" % (width, len(l), l))
         recs.append((int(l[0:5]), l[5:10].strip(), l[10:15].strip(), int(l[15:20]),
                      float(l[20:28]), float(l[28:36]), float(l[36:44])))
+        if width == 68:
+            [float(l[44 + 8 * k:52 + 8 * k]) for k in range(3)]
     nums = [float(x) for x in lines[2 + n].split()]
     return title, n, recs, W.box_matrix(nums), lines[3 + n:]
 
@@ -126,6 +131,8 @@ def execute(trace, ctx):
         attached = {}
         mapped_at = {}          # species -> True when its map was built after its (latest) end molecule was attached
         last_success = {}       # out path -> (state key, bytes)
+        scale_of = {}           # species -> scale of its latest map
+        law_valid = [False]     # the live molecules are where they were when the maps were built
         if trace.get("preexisting"):
             with open(os.path.join(d, "out1.gro"), "w") as f:
                 f.write("previous content\n")
@@ -151,7 +158,9 @@ def execute(trace, ctx):
                     else:
                         manager.add_end_molecule(mol)
                     attached[s] = True
-                    mapped_at.setdefault(s, False)       # an exchange map, once built, stays with the alignment
+                    # a species attached for the first time has no map; one that had a map, was detached and is attached
+                    # again may or may not have kept it (the statement does not say): None = either outcome is in order
+                    mapped_at[s] = None if mapped_at.get(s) else False
                     ctx.op(kind, op["via"])
                 elif kind == "detach":
                     s = op["species"]
@@ -165,11 +174,13 @@ def execute(trace, ctx):
                     if s in attached:
                         ali = manager.molecule_correspondence[species[s]["name"]]
                         getattr(ali, op["which"]).move(np.array(op["d"]))
+                        law_valid[0] = False
                         ctx.probe("live_molecule_moved_between_map_builds")
                     ctx.op(kind)
                 elif kind == "align":
                     Alignment.STEPS_FACTOR = op["steps_factor"]
                     try:
+                        law_valid[0] = False
                         manager.align_molecules()
                     finally:
                         Alignment.STEPS_FACTOR = old_sf
@@ -178,12 +189,23 @@ def execute(trace, ctx):
                     manager.calculate_exchange_maps(op["scale"])
                     for s in attached:
                         mapped_at[s] = True
+                        scale_of[s] = op["scale"]
+                    law_valid[0] = True
                     check_scale_law(ctx, manager, species, attached, op["scale"])
                     ctx.op(kind)
                 elif kind == "extrapolate":
                     out = os.path.join(d, op["out"])
-                    ready = bool(attached) and all(mapped_at[s] for s in attached)
-                    do_extrapolate(ctx, trace, manager, seam, out, ready, attached, world, last_success, i)
+                    if not attached or any(mapped_at[s] is False for s in attached):
+                        ready = False
+                    elif any(mapped_at[s] is None for s in attached):
+                        ready = None
+                    else:
+                        ready = True
+                    ok = do_extrapolate(ctx, trace, manager, seam, out, ready, attached, world, last_success, i)
+                    if ok and ready and law_valid[0]:
+                        # ... and the maps are still the maps of the requested scale AFTER the extrapolation used them
+                        for s in sorted(attached):
+                            check_scale_law(ctx, manager, species, {s: True}, scale_of[s], when="after extrapolation")
         except Exception as e:
             import traceback
             ctx.violate(P, "lifecycle-raised", f"operation {trace['ops'][ctx.op_index]} raised {type(e).__name__}: {e}\n"
@@ -194,7 +216,7 @@ def execute(trace, ctx):
     ctx.nontrivial = True
 
 
-def check_scale_law(ctx, manager, species, attached, scale):
+def check_scale_law(ctx, manager, species, attached, scale, when="after calculate_exchange_maps"):
     """The map the Manager has just built for a species is the map OF THE REQUESTED SCALE: applied to the alignment's own
     start molecule it puts every end atom at a + s (p - a) (C01's law, evaluated with an independent nearest-anchor
     computation).  Without this the per-molecule oracle below (output = the species' map applied to the input molecule)
@@ -220,7 +242,7 @@ def check_scale_law(ctx, manager, species, attached, scale):
             ctx.probe("scale_law_checked")
             if not any(float(np.max(np.abs(got[t] - (S[a] + scale * (E[t] - S[a]))))) <= 1e-8 for a in tied):
                 a = tied[0]
-                ctx.violate(P, "map-scale-law", f"species {sp['name']}, scale {scale}: the map built by calculate_exchange_maps puts end "
+                ctx.violate(P, "map-scale-law", f"species {sp['name']}, scale {scale}, {when}: the species' map puts end "
                                                 f"atom {t} at {got[t].tolist()}, anchor + s (p - anchor) = "
                                                 f"{(S[a] + scale * (E[t] - S[a])).tolist()}", key="scale")
                 break
@@ -236,7 +258,12 @@ def do_extrapolate(ctx, trace, manager, seam, out, ready, attached, world, last_
         raised = None
     except Exception as e:
         raised = e
-    if not ready:
+    if ready is None:
+        ctx.probe("extrapolation_with_map_from_before_detach")
+        if raised is not None:
+            ctx.op("extrapolate", "refused-after-reattach")
+            return False
+    elif not ready:
         ctx.fault("premature_extrapolation")
         if raised is None:
             ctx.op("extrapolate", "premature-accepted")
@@ -250,7 +277,7 @@ def do_extrapolate(ctx, trace, manager, seam, out, ready, attached, world, last_
         if now != before:
             ctx.violate(P, "premature-extrapolation-wrote", "a refused extrapolation created or changed the output file")
         ctx.op("extrapolate", "premature-" + type(raised).__name__)
-        return
+        return False
     if raised is not None:
         ctx.op("extrapolate", "raised")
         ctx.violate(P, "extrapolation-raised", f"extrapolate_system raised {type(raised).__name__}: {raised}", key=type(raised).__name__)
@@ -281,8 +308,13 @@ def do_extrapolate(ctx, trace, manager, seam, out, ready, attached, world, last_
         ctx.violate(P, "atom-count", f"{n} atoms written (count line) / {len(recs)} records; expected {want_n} = sum of target sizes "
                                      f"over {len(todo)} molecules of species {sorted(complete)}")
         return
+    if [x for x in rest if x != ""] or len(rest) != 1:
+        ctx.violate(P, "trailing-lines", f"the output continues after its box line: {rest[:3]!r}")
     if title != world["title"]:
         ctx.violate(P, "title", f"title {title!r}, input has {world['title']!r}")
+    with_vel = [bool(species[s]["end"].get("velocities")) for s in complete]
+    if any(with_vel):
+        ctx.probe("end_molecule_with_velocities" + ("" if all(with_vel) else "_mixed"))
     wb = W.box_matrix(world["box"])
     if np.max(np.abs(box - wb)) > 5e-6 * (1 + 1e-6) + 1e-9:
         ctx.violate(P, "box", f"box {box.tolist()} differs from the input's {wb.tolist()}")
@@ -338,6 +370,15 @@ def do_extrapolate(ctx, trace, manager, seam, out, ready, attached, world, last_
         else:
             ctx.probe("small_reference_species")
             rp = np.array(inst["positions"])
+            # "up to the rotation left free": ONE rotation for the whole molecule -- its shape is the map's
+            Dg = np.linalg.norm(got[:, None] - got[None, :], axis=-1)
+            Dm = np.linalg.norm(mp[:, None] - mp[None, :], axis=-1)
+            if m > 1 and float(np.max(np.abs(Dg - Dm))) > 0.002:
+                ctx.violate(P, "coordinates-small-reference", f"output molecule {k} ({sp['name']}, {n_ref}-atom reference): its "
+                                                              f"interatomic distances differ from those of the species' map result "
+                                                              f"by {float(np.max(np.abs(Dg - Dm))):.4f} nm (not one rigid image)",
+                            key=f"ref{n_ref}-shape")
+                return
             for a in range(m):
                 if n_ref == 1:
                     d1 = np.linalg.norm(got[a] - rp[0])
@@ -375,8 +416,10 @@ def do_extrapolate(ctx, trace, manager, seam, out, ready, attached, world, last_
     last_success["any"] = (state_key, image)
     ctx.op("extrapolate", f"ok:{len(todo)}")
     ctx.probe("successful_extrapolation")
+    ok_ret = True
     if len(complete) < len(species):
         ctx.probe("unmapped_species_skipped")
+    return ok_ret
 
 
 def execute_shipped(trace, ctx):
